@@ -1,6 +1,7 @@
 (* Property C07 -- placeholder while the proofs are being built (theorems follow). *)
 From Coq Require Import ZArith List.
 From Tickit Require Import Utf8Defs Utf8Spec.
+Import ListNotations.
 Local Open Scope Z_scope.
 
 Example C07_nonvacuous : u8_count [0x41; 0xcc; 0x81; 0] None = CRet 3 (mkPos 3 2 1 1).
